@@ -207,6 +207,14 @@ func runCheck(args []string) int {
 			continue
 		}
 		r := &Run{Env: env, Harness: modPath + "/" + h.Fn, Params: params, MapOrder: h.MapOrder, PanicIsOK: h.PanicIsOK,
+			IsKnown: func(v *Violation) bool {
+				for ki := range known {
+					if known[ki].matches(id, v) {
+						return true
+					}
+				}
+				return false
+			},
 			PoolDrain: h.PoolDrain, LockDisc: h.LockDisc, Fuel: h.Fuel, MergeOff: h.MergeOff, Quiet: false, DiffEvery: 97}
 		if strings.HasPrefix(h.Fn, ".") {
 			r.Harness = modPath + h.Fn
